@@ -1,3 +1,25 @@
-/- C02 — the independent decoder (specification) and, later, theorems relating the writer model to it -/
+/-
+C02 — every finalized file is a well-formed E57 file for an independent decoder.
+
+The independent implementation is `E57/Spec/Decoder.lean` (`decodeFile`, written from the format, not from the
+crate); suite `spec` runs it on files of the REAL writer.  Proved about the WRITER MODEL's output, in terms of the
+decoder's own checks (`E57/Proofs/WellFormed.lean`, namespace `E57.WF`):
+
+ * `finalized_pages_valid`   size is a whole number of pages, every page checksum valid; the decoder's
+   `depageChecked` succeeds and yields exactly the logical stream (`depage_image`).
+ * `finalized_header_true`, `finalized_header_decoded`   the header states the true file length, the XML offset
+   (= `l2p` of where the XML starts), the XML length and page size 1024; every header read of the decoder passes.
+ * `offsets_outside_checksums`   `l2p n % 1024 < 1020`, `toLogical (l2p n) = n`, `physOk` characterised.
+ * `walk_pkts`, `section_consistent`   for a point-cloud section of the writer: section length = 32 + Σ packet
+   lengths, packets ≤ 64 KiB and 4-aligned, data offset on the first packet; the decoder's packet walk ends exactly
+   at the section end.
+ * `collected_streams`, `decodeStream_recordStream`, `decode_section_points`   the decoder returns exactly the
+   points added (float bit patterns, integers), in order.
+ * `blob_section_decoded`   blob sections: id 0, length (16+len+3)/4*4, the bytes.
+ * `decodeFile_ok`, `C02_decodeFile`, `C02_closed_file`   `Spec.decodeFile` succeeds on the closed file and returns
+   the points and blob bytes — with the XML walk (`walkNode` over the externally parsed document) as hypothesis.
+ * necessary hypotheses, with witnesses: `finalized_header_statement_false` (cursor ≥ 48),
+   `xml_offset_statement_false` (non-empty XML; only a caller's transformer can produce an empty document).
+-/
 import E57.Spec.Decoder
-import E57.Model.Writer
+import E57.Proofs.WellFormed
